@@ -318,7 +318,7 @@ func (ck *checker) failures() failureSet {
 					if c.In.Schema != nil || c.Cfg.Lang != "go" {
 						fs.needed[c.Cfg.Lang+": "+d.Key()] = append(fs.needed[c.Cfg.Lang+": "+d.Key()], c)
 					}
-					cond = "not minimised; seen at " + c.Cfg.String()
+					cond = "not minimised"
 				}
 			}
 			kind := fmt.Sprintf("%s: %s [when %s]", c.Cfg.Lang, d.Key(), cond)
@@ -645,28 +645,28 @@ func main() {
 	exhaustive := len(ck.truncated) == 0 && stable
 	ws.Close()
 	r.Finish(map[string]any{
-		"states":                        len(ck.all),
-		"transitions":                   ev.runs,
-		"traces_validated_against_impl": ev.runs,
-		"samples":                       samples.L,
-		"exhaustive":                    exhaustive,
-		"truncated":                     ck.truncated,
-		"part_A":                        map[string]any{"schemas": doneA, "of": len(inputsA), "go_configurations": len(allGoCfgs()), "units": doneA * len(allGoCfgs()), "format_used": fallback, "wall_s": tA.Seconds()},
-		"part_B":                        map[string]any{"abstract_schemas": len(schemasB), "schema_format_inputs": doneB, "of": len(inputsB), "configurations_per_input": len(partBCfgs(r.Thorough())), "formats_skipped": skipped, "wall_s": tB.Seconds()},
-		"part_C":                        map[string]any{"irs": doneC, "configurations_per_ir": len(cfgsC), "path": "real codegen.Pipeline.Run; IR injected through the exported Pipeline.Transforms.CommonPasses hook", "wall_s": tC.Seconds()},
-		"minimisation":                  map[string]any{"rounds": rounds, "stable": stable, "complete_go_products_on_demand": ck.products, "wall_s": tMin.Seconds()},
-		"per_language":                  perLang,
-		"refusals_distinct_messages":    refusals,
-		"go_packages_compiled":          ev.goPkgsCompiled,
-		"go_build_invocations":          ev.goBuilds,
-		"javac_invocations":             ev.javacRuns,
-		"dedup":                         map[string]string{"go": dedup("go"), "python": dedup("python"), "java": dedup("java")},
-		"placeholder_catalogue":         scan.Sources,
-		"placeholder_legit_phrases":     scan.legit,
+		"states":                         len(ck.all),
+		"transitions":                    ev.runs,
+		"traces_validated_against_impl":  ev.runs,
+		"samples":                        samples.L,
+		"exhaustive":                     exhaustive,
+		"truncated":                      ck.truncated,
+		"part_A":                         map[string]any{"schemas": doneA, "of": len(inputsA), "go_configurations": len(allGoCfgs()), "units": doneA * len(allGoCfgs()), "format_used": fallback, "wall_s": tA.Seconds()},
+		"part_B":                         map[string]any{"abstract_schemas": len(schemasB), "schema_format_inputs": doneB, "of": len(inputsB), "configurations_per_input": len(partBCfgs(r.Thorough())), "formats_skipped": skipped, "wall_s": tB.Seconds()},
+		"part_C":                         map[string]any{"irs": doneC, "configurations_per_ir": len(cfgsC), "path": "real codegen.Pipeline.Run; IR injected through the exported Pipeline.Transforms.CommonPasses hook", "wall_s": tC.Seconds()},
+		"minimisation":                   map[string]any{"rounds": rounds, "stable": stable, "complete_go_products_on_demand": ck.products, "wall_s": tMin.Seconds()},
+		"per_language":                   perLang,
+		"refusals_distinct_messages":     refusals,
+		"go_packages_compiled":           ev.goPkgsCompiled,
+		"go_build_invocations":           ev.goBuilds,
+		"javac_invocations":              ev.javacRuns,
+		"dedup":                          map[string]string{"go": dedup("go"), "python": dedup("python"), "java": dedup("java")},
+		"placeholder_catalogue":          scan.Sources,
+		"placeholder_legit_phrases":      scan.legit,
 		"files_scanned_for_placeholders": ev.filesScanned,
-		"files_skipped_as_static":       ev.filesStatic,
-		"failure_kinds":                 len(kinds),
-		"time_s":                        map[string]float64{"generate": ev.timeGen.Seconds(), "go_build": ev.timeGo.Seconds(), "python": ev.timePy.Seconds(), "javac": ev.timeJava.Seconds()},
+		"files_skipped_as_static":        ev.filesStatic,
+		"failure_kinds":                  len(kinds),
+		"time_s":                         map[string]float64{"generate": ev.timeGen.Seconds(), "go_build": ev.timeGo.Seconds(), "python": ev.timePy.Seconds(), "javac": ev.timeJava.Seconds()},
 		"explanation": "every unit is one run of the real codegen.Pipeline in a crash-isolated worker; units whose generated Go/Python/Java trees are byte-identical after replacing the unit id share one compilation " +
 			"(the representative is compiled by the real toolchain); part A is the complete product 64 flag combinations x 4 output selections per schema; kinds carry the minimal flag condition computed from that product",
 	}, []string{
